@@ -91,6 +91,25 @@ func init() {
 			return nil
 		},
 		rt + "Notes": func(fr *frame, a []value) value { return strings.Join(fr.i.run.samples, "; ") },
+		rt + "And": func(fr *frame, a []value) value { return fr.i.andv(a[0], a[1]) },
+		rt + "Or": func(fr *frame, a []value) value {
+			return fr.i.notv(fr.i.andv(fr.i.notv(a[0]), fr.i.notv(a[1])))
+		},
+		rt + "Not": func(fr *frame, a []value) value { return fr.i.notv(a[0]) },
+		rt + "Implies": func(fr *frame, a []value) value {
+			return fr.i.notv(fr.i.andv(a[0], fr.i.notv(a[1])))
+		},
+		rt + "IteI64": func(fr *frame, a []value) value { return fr.i.itev(a, types.Typ[types.Int64]) },
+		rt + "IteU64": func(fr *frame, a []value) value { return fr.i.itev(a, types.Typ[types.Uint64]) },
+		rt + "IteI32": func(fr *frame, a []value) value { return fr.i.itev(a, types.Typ[types.Int32]) },
+		rt + "IteU32": func(fr *frame, a []value) value { return fr.i.itev(a, types.Typ[types.Uint32]) },
+		rt + "BytesEq": func(fr *frame, a []value) value { return ext۰bytes۰Equal(fr, a) },
+		rt + "Scope": func(fr *frame, a []value) value {
+			fr.i.scopeBegin()
+			call(fr.i, fr, token.NoPos, a[0], nil)
+			fr.i.scopeEnd()
+			return nil
+		},
 		rt + "IsConcrete": func(fr *frame, a []value) value {
 			_, ok := bytesOf(a[0])
 			return ok
@@ -529,25 +548,100 @@ func (i *interpreter) nativeArg(fr *frame, v value) interface{} {
 				s = call(i, fr, token.NoPos, f, []value{itf.v})
 			}()
 			if str, ok := s.(string); ok {
-				return str
+				return rawString{str}
 			}
 		}
 	}
-	if bs, ok := bytesOf(itf.v); ok {
-		return bs
+	return rawString{i.fmtValue(fr, itf.v, itf.t, 0)}
+}
+
+// rawString prints without quotes under %v and %s.
+type rawString struct{ s string }
+
+func (r rawString) Format(f fmt.State, c rune) { fmt.Fprint(f, r.s) }
+
+// fmtValue mimics fmt's %v for interpreted aggregate values.
+func (i *interpreter) fmtValue(fr *frame, v value, t types.Type, depth int) string {
+	if depth > 6 {
+		return "..."
 	}
-	if arr, ok := itf.v.(array); ok {
-		out := make([]byte, 0, len(arr))
-		for _, e := range arr {
-			if b, ok := e.(uint8); ok {
-				out = append(out, b)
-			} else {
-				return "<array>"
+	if _, ok := v.(*Term); ok {
+		return "<sym>"
+	}
+	if depth > 0 {
+		if itf, ok := v.(iface); ok {
+			if itf.t == nil {
+				return "<nil>"
+			}
+			return fmt.Sprint(i.nativeArg(fr, itf))
+		}
+		// named types with String/Error methods
+		if _, isNamed := t.(*types.Named); isNamed {
+			if f := i.findMethod(t, "Error"); f != nil {
+				return fmt.Sprint(i.nativeArg(fr, iface{t: t, v: v}))
+			}
+			if f := i.findMethod(t, "String"); f != nil {
+				return fmt.Sprint(i.nativeArg(fr, iface{t: t, v: v}))
 			}
 		}
-		return out
 	}
-	return "<" + itf.t.String() + ">"
+	switch u := t.Underlying().(type) {
+	case *types.Basic:
+		return fmt.Sprint(v)
+	case *types.Slice:
+		sl, ok := v.([]value)
+		if !ok {
+			return "<opaque>"
+		}
+		parts := make([]string, len(sl))
+		for k, e := range sl {
+			parts[k] = i.fmtValue(fr, e, u.Elem(), depth+1)
+		}
+		return "[" + strings.Join(parts, " ") + "]"
+	case *types.Array:
+		arr := v.(array)
+		parts := make([]string, len(arr))
+		for k, e := range arr {
+			parts[k] = i.fmtValue(fr, e, u.Elem(), depth+1)
+		}
+		return "[" + strings.Join(parts, " ") + "]"
+	case *types.Struct:
+		st := v.(structure)
+		parts := make([]string, len(st))
+		for k, e := range st {
+			parts[k] = i.fmtValue(fr, e, u.Field(k).Type(), depth+1)
+		}
+		return "{" + strings.Join(parts, " ") + "}"
+	case *types.Map:
+		m := v.(*omap)
+		var parts []string
+		if m != nil {
+			for p := range m.keys {
+				if m.live[p] {
+					parts = append(parts, i.fmtValue(fr, m.keys[p], u.Key(), depth+1)+":"+i.fmtValue(fr, m.vals[p], u.Elem(), depth+1))
+				}
+			}
+		}
+		sort.Strings(parts)
+		return "map[" + strings.Join(parts, " ") + "]"
+	case *types.Pointer:
+		pv := v.(*value)
+		if pv == nil {
+			return "<nil>"
+		}
+		if _, ok := u.Elem().Underlying().(*types.Struct); ok && depth == 0 {
+			return "&" + i.fmtValue(fr, *pv, u.Elem(), depth+1)
+		}
+		return fmt.Sprintf("%p", pv)
+	case *types.Interface:
+		if itf, ok := v.(iface); ok {
+			if itf.t == nil {
+				return "<nil>"
+			}
+			return fmt.Sprint(i.nativeArg(fr, itf))
+		}
+	}
+	return "<" + t.String() + ">"
 }
 
 func (i *interpreter) sprintf(fr *frame, format string, args []value) string {
@@ -831,4 +925,19 @@ func (i *interpreter) findMethod(t types.Type, name string) *ssa.Function {
 		return nil
 	}
 	return i.prog.MethodValue(sel)
+}
+
+// ifaceOf wraps v of static type t into an interface value.
+func ifaceOf(i *interpreter, t types.Type, v value) value {
+	return iface{t: t, v: v}
+}
+
+func (i *interpreter) itev(a []value, t types.Type) value {
+	if c, ok := a[0].(bool); ok {
+		if c {
+			return a[1]
+		}
+		return a[2]
+	}
+	return unlift(i.tt.Ite(a[0].(*Term), i.lift(a[1]), i.lift(a[2])), t)
 }
